@@ -555,9 +555,10 @@ pub fn judge(rep: &mut Reporter, scn: &FScn) {
                 if !(silent_udp || silent_tcp) {
                     continue;
                 }
-                let first = out.log.iter().find(|e| e.server == i && matches!(e.kind, "udp-send" | "tcp-query") && e.t <= out.calls[0].end);
-                if let Some(f) = first {
-                    let next = out.log.iter().find(|e| e.t >= f.t && e.server != i && upstream(e.kind)).map(|e| e.t).unwrap_or(out.calls[0].end).min(out.calls[0].end);
+                let first = out.log.iter().position(|e| e.server == i && matches!(e.kind, "udp-send" | "tcp-query") && e.t <= out.calls[0].end);
+                if let Some(fi) = first {
+                    let f = &out.log[fi];
+                    let next = out.log[fi + 1..].iter().find(|e| e.server != i && upstream(e.kind)).map(|e| e.t).unwrap_or(out.calls[0].end).min(out.calls[0].end);
                     let occ = (next - f.t) as f64 / to_us as f64;
                     // only meaningful when the lookup's own deadline did not cut it short
                     if f.t == 0 {
